@@ -95,6 +95,116 @@ Theorem C19_each_path_once : forall only skip st, NoDup (deleted (clear_repo onl
 Proof. exact (no_path_twice csv feat rdata). Qed.
 Print Assumptions C19_each_path_once.
 
+(* --- 5. sessions: several calls made by one process (same directory as the earlier calls left it, or a
+        fresh copy of the initial directory), for ALL histories *)
+Notation call := MClear.call.
+
+(* the user is asked exactly when the call is not forced and something would be deleted
+   (so: never a silent deletion "because there is nothing to lose", never a needless question) *)
+Theorem C19_prompt_iff : forall only skip st force,
+  prompts_repo only skip st force = true <->
+  force = false /\ exists p, In p (deleted (clear_repo only skip st true)).
+Proof. exact (prompts_iff csv feat rdata). Qed.
+Print Assumptions C19_prompt_iff.
+
+(* the question (and the refusal message) names exactly the paths that a yes deletes *)
+Theorem C19_question_names_what_is_deleted : forall only skip st,
+  announced_repo only skip st = deleted (clear_repo only skip st true).
+Proof. exact (announced_is_deleted csv feat rdata). Qed.
+Print Assumptions C19_question_names_what_is_deleted.
+
+(* the directory after a call: exactly the deleted paths are gone *)
+Theorem C19_after_exact : forall st o p,
+  kind_of (after st o) p = if memb p (deleted o) then Absent else kind_of st p.
+Proof. exact kind_of_after. Qed.
+Print Assumptions C19_after_exact.
+
+(* a refused call leaves the directory exactly as it was *)
+Theorem C19_refusal_changes_nothing : forall only skip st,
+  after st (clear_repo only skip st false) = st.
+Proof. exact (no_consent_state_unchanged csv feat rdata). Qed.
+Print Assumptions C19_refusal_changes_nothing.
+
+(* a cleared selection stays cleared: calling again with the same selection neither asks nor refuses nor
+   deletes, whatever kind (file, folder, live or dangling link) the entries had *)
+Theorem C19_cleared_then_quiet : forall only skip st c,
+  clear_repo only skip (after st (clear_repo only skip st true)) c = Done [] /\
+  prompts_repo only skip (after st (clear_repo only skip st true)) false = false.
+Proof. exact (cleared_then_quiet csv feat rdata). Qed.
+Print Assumptions C19_cleared_then_quiet.
+
+(* whatever the history of calls, a path outside the tables is never touched, and a path inside either
+   is as it was in the initial directory or is gone (nothing is ever created or replaced) *)
+Theorem C19_session_foreign_survive : forall (ks : list call) st p,
+  ~ In p paths -> kind_of (snd (session_repo st st ks)) p = kind_of st p.
+Proof. intros ks st p NP. apply (session_foreign csv feat rdata tables_names_disjoint ks st st p NP). reflexivity. Qed.
+Print Assumptions C19_session_foreign_survive.
+
+Theorem C19_session_only_shrinks : forall (ks : list call) st p,
+  kind_of (snd (session_repo st st ks)) p = kind_of st p \/ kind_of (snd (session_repo st st ks)) p = Absent.
+Proof. intros ks st p. apply (session_only_shrinks csv feat rdata ks st st p). left; reflexivity. Qed.
+Print Assumptions C19_session_only_shrinks.
+
+(* the outcome of a call on a fresh directory at the end of ANY history is that of the call alone:
+   nothing is remembered from one call to the next (selection, consent, records_data rule) *)
+Theorem C19_history_independent : forall (ks : list call) st (k : call),
+  k_fresh k = true ->
+  fst (session_repo st st (ks ++ [k])) =
+  fst (session_repo st st ks) ++ [clear_repo (k_only k) (k_skip k) st (consent_of k)].
+Proof. intros ks st k. exact (fresh_call_history_independent csv feat rdata ks st st k). Qed.
+Print Assumptions C19_history_independent.
+
+(* a session of refused calls on one directory leaves it as it was *)
+Theorem C19_session_without_consent : forall (ks : list call) st,
+  Forall (fun k => consent_of k = false /\ k_fresh k = false) ks -> snd (session_repo st st ks) = st.
+Proof. intros ks st. exact (session_without_consent csv feat rdata ks st st). Qed.
+Print Assumptions C19_session_without_consent.
+
+(* what every call of a session keeps survives the session: a path none of whose parts is ever selected
+   (parts named in skip, or not named in only), and records_data when every call keeps a part storing files *)
+Theorem C19_kept_part_survives_session : forall (ks : list call) st p,
+  p <> rdata ->
+  (forall e, In e (csv ++ feat) -> MClear.tpath e = p ->
+     Forall (fun k => selected (k_only k) (k_skip k) (MClear.tname e) = false) ks) ->
+  kind_of (snd (session_repo st st ks)) p = kind_of st p.
+Proof.
+  intros ks st p NR H.
+  apply (session_kept_part_survives csv feat rdata tables_names_disjoint tables_names_nodup ks st st p NR H). reflexivity.
+Qed.
+Print Assumptions C19_kept_part_survives_session.
+
+Theorem C19_records_data_survives_session : forall (ks : list call) st,
+  Forall (fun k => exists e, In e (csv ++ feat) /\ MClear.tfile e = true /\
+                             selected (k_only k) (k_skip k) (MClear.tname e) = false) ks ->
+  kind_of (snd (session_repo st st ks)) rdata = kind_of st rdata.
+Proof.
+  intros ks st H.
+  apply (session_records_data_survives csv feat rdata tables_names_disjoint tables_names_nodup ks st st H). reflexivity.
+Qed.
+Print Assumptions C19_records_data_survives_session.
+
+(* the hypotheses of the two theorems above are satisfiable (decided on the generated tables) *)
+Example C19_kept_hypotheses_satisfiable :
+  let k o s f y fr := {| k_only := o; k_skip := s; k_force := f; k_yes := y; k_fresh := fr |} in
+  let ks := [k [] ["Keypoints"; "RecordsCamera"] true false false; k ["Trajectories"; "Matches"] [] false true true] in
+  forallb (fun e => implb (eqb (MClear.tpath e) "reconstruction/keypoints")
+                          (forallb (fun c => negb (selected (k_only c) (k_skip c) (MClear.tname e))) ks)) (csv ++ feat) = true
+  /\ existsb (fun e => eqb (MClear.tpath e) "reconstruction/keypoints") (csv ++ feat) = true
+  /\ forallb (fun c => existsb (fun e => MClear.tfile e && negb (selected (k_only c) (k_skip c) (MClear.tname e))) (csv ++ feat)) ks = true.
+Proof. vm_compute. repeat split. Qed.
+
+Example C19_session_example :
+  let st := [("sensors/sensors.txt", Link); ("sensors/trajectories.txt", File);
+             ("sensors/records_data", Dir); ("reconstruction/keypoints", Dir); ("notes.md", File)] in
+  let k o s f y fr := {| k_only := o; k_skip := s; k_force := f; k_yes := y; k_fresh := fr |} in
+  session_repo st st [k ["Trajectories"] [] true false false; k ["Keypoints"] [] false false true;
+                      k ["Keypoints"] [] false true true; k [] [] false true false; k [] [] false false false]
+  = ([Done [("sensors/trajectories.txt", Unlink)]; Refused; Done [("reconstruction/keypoints", Rmtree)];
+      Done [("sensors/trajectories.txt", Unlink); ("sensors/sensors.txt", Unlink); ("sensors/records_data", Rmtree)];
+      Done []],
+     [("notes.md", File)]).
+Proof. vm_compute. reflexivity. Qed.
+
 (* --- non-vacuity: a concrete state where each clause bites *)
 Example C19_example :
   let st := [("sensors/sensors.txt", File); ("sensors/records_camera.txt", File);
